@@ -33,6 +33,7 @@ type vcdTrip struct {
 	V    map[string]any `json:"v"`
 	Path string         `json:"path"`
 	Sel  string         `json:"sel"` // "" = every scheme, "first" = first scheme only, "rest" = all but the first
+	Over map[string]any `json:"over"` // a value of the same type saved first under the same key (bolt paths)
 }
 
 func vcdInt(v map[string]any, k string) int { return int(v[k].(float64)) }
@@ -279,6 +280,22 @@ func TestVerifCodecDKG(t *testing.T) {
 			orig := vcdState(sch, v)
 			var d2 *DBState
 			id := fmt.Sprintf("beacon-%d", k)
+			over := x.Over
+			if over == nil {
+				over = map[string]any{"type": "none"}
+			}
+			ev["over"] = over
+			if vcdStr(over, "type") != "none" {
+				var err error
+				if path == "boltfin" {
+					err = store.SaveFinished(id, vcdState(sch, over))
+				} else if path == "boltcur" {
+					err = store.SaveCurrent(id, vcdState(sch, over))
+				}
+				if err != nil {
+					ev["err"] = "saving the earlier value: " + err.Error()
+				}
+			}
 			switch path {
 			case "toml":
 				b, err := encodeState(vcdState(sch, v))
